@@ -103,13 +103,20 @@ theorem body_cons (t : Template) (x : List Bytes) (xs : List (List Bytes)) :
     body t (x :: xs) = Wire.V9.encodeRecord t x ++ body t xs := by
   simp [body]
 
+/-- the decoder's `minRecordLen` is the template's record length, clamped to 1 -/
+theorem minRecLen_spec (t : Template) :
+    minRecLen t = if Wire.V9.recLen t < 1 then 1 else Wire.V9.recLen t := rfl
+
+theorem minRecLen_pos {t : Template} (h : 0 < Wire.V9.recLen t) : minRecLen t = Wire.V9.recLen t := by
+  rw [minRecLen_spec, if_neg (by omega)]
+
 /-- **C06 level 2a (record loop)**: over `records ++ pad ++ rest`, with the set header announcing
 exactly `records ++ pad`, the loop yields all records in order, stops in front of the padding, reports
 no error -/
-theorem setLoop_data (ctx : Ctx) (hsid : 255 < ctx.setId) (hbig : 4 < Wire.V9.recLen ctx.tr) :
+theorem setLoop_data (ctx : Ctx) (hsid : 255 < ctx.setId) (hbig : 0 < Wire.V9.recLen ctx.tr) :
     ∀ (records : List (List Bytes)) (pad rest : Bytes) (fuel : Nat) (st : St),
       (∀ x ∈ records, Wire.V9.wfRecord ctx.tr x = true) →
-      pad.length ≤ 4 →
+      pad.length < Wire.V9.recLen ctx.tr →
       st.r.rem = body ctx.tr records ++ (pad ++ rest) →
       leftInt ctx st.r = (((body ctx.tr records).length + pad.length : Nat) : Int) →
       records.length < fuel →
@@ -125,7 +132,8 @@ theorem setLoop_data (ctx : Ctx) (hsid : 255 < ctx.setId) (hbig : 4 < Wire.V9.re
     | succ n =>
       simp only [setLoop]
       have hc : contCond ctx st.r = false := by
-        simp only [contCond, Bool.and_eq_false_iff, decide_eq_false_iff_not]
+        simp only [contCond, minLeft, if_pos hsid, minRecLen_pos hbig, Bool.and_eq_false_iff,
+          decide_eq_false_iff_not]
         left
         rw [hlen, body_nil]; simp only [List.length_nil]; omega
       rw [hc]
@@ -145,7 +153,7 @@ theorem setLoop_data (ctx : Ctx) (hsid : 255 < ctx.setId) (hbig : 4 < Wire.V9.re
       simp only [setLoop]
       rw [body_cons] at hrem hlen
       have hc : contCond ctx st.r = true := by
-        simp only [contCond, Bool.and_eq_true, decide_eq_true_eq]
+        simp only [contCond, minLeft, if_pos hsid, minRecLen_pos hbig, Bool.and_eq_true, decide_eq_true_eq]
         constructor
         · rw [hlen]; simp only [List.length_append]; omega
         · rw [hrem]; simp only [List.length_append]; omega
@@ -190,7 +198,7 @@ theorem skipRest_pad (ctx : Ctx) (st : St) (pad rest : Bytes) (c : Nat)
     simp only [Int.toNat_natCast]
     rw [readN_append]
 
-theorem body_length_ge (t : Template) (hbig : 4 < Wire.V9.recLen t) :
+theorem body_length_ge (t : Template) (hbig : 0 < Wire.V9.recLen t) :
     ∀ (records : List (List Bytes)), (∀ x ∈ records, Wire.V9.wfRecord t x = true) →
       records.length ≤ (body t records).length := by
   intro records
@@ -228,7 +236,7 @@ theorem decodeSet_data (addr : Bytes) (t : Template) (records : List (List Bytes
     decodeSet addr fuel ⟨⟨Wire.V9.encodeDataSet t records pad ++ rest, c⟩, cache, recs⟩ =
       (⟨⟨rest, c + (Wire.V9.encodeDataSet t records pad).length⟩, cache,
         recs ++ records.map (expectedRecord t)⟩, none) := by
-  simp only [Wire.V9.wfSet, Wire.V9.wfSetLen, Bool.and_eq_true, decide_eq_true_eq, beq_iff_eq,
+  simp only [Wire.V9.wfSet, Wire.V9.wfSetLen, Wire.V9.wfDataPad, Bool.and_eq_true, decide_eq_true_eq, beq_iff_eq,
     List.all_eq_true] at hw
   obtain ⟨⟨⟨⟨⟨⟨h255, h64k⟩, hlk⟩, hbig⟩, _⟩, hrec⟩, hpad, hlen⟩ := hw
   unfold Wire.V9.encodeDataSet
@@ -389,7 +397,8 @@ theorem setLoop_tpl (ctx : Ctx) (enc : Template → Bytes) (hsid : ctx.setId = 0
     | succ n =>
       simp only [setLoop]
       have hc : contCond ctx st.r = false := by
-        simp only [contCond, Bool.and_eq_false_iff, decide_eq_false_iff_not]
+        simp only [contCond, minLeft, if_neg (by omega : ¬ ctx.setId > 255), Bool.and_eq_false_iff,
+          decide_eq_false_iff_not]
         left
         rw [hlen]; simp only [tbody, List.map_nil, List.flatten_nil, List.length_nil]; omega
       rw [hc]
@@ -408,7 +417,7 @@ theorem setLoop_tpl (ctx : Ctx) (enc : Template → Bytes) (hsid : ctx.setId = 0
       simp only [setLoop]
       rw [tbody_cons] at hrem hlen
       have hc : contCond ctx st.r = true := by
-        simp only [contCond, Bool.and_eq_true, decide_eq_true_eq]
+        simp only [contCond, minLeft, if_neg (by omega : ¬ ctx.setId > 255), Bool.and_eq_true, decide_eq_true_eq]
         constructor
         · rw [hlen]; simp only [List.length_append]; omega
         · rw [hrem]; simp only [List.length_append]; omega
@@ -457,7 +466,7 @@ theorem decodeSet_tpl (addr : Bytes) (ts : List Template) (pad rest : Bytes)
     (hw : Wire.V9.wfSet addr cache (.tpl ts pad) = true) (hfuel : ts.length < fuel) :
     decodeSet addr fuel ⟨⟨Wire.V9.encodeTemplateSet ts pad ++ rest, c⟩, cache, recs⟩ =
       (⟨⟨rest, c + (Wire.V9.encodeTemplateSet ts pad).length⟩, insertAll addr cache ts, recs⟩, none) := by
-  simp only [Wire.V9.wfSet, Wire.V9.wfSetLen, Bool.and_eq_true, decide_eq_true_eq,
+  simp only [Wire.V9.wfSet, Wire.V9.wfSetLen, Wire.V9.wfTplPad, Bool.and_eq_true, decide_eq_true_eq,
     List.all_eq_true] at hw
   obtain ⟨⟨_, hts⟩, hpad, hlen⟩ := hw
   unfold Wire.V9.encodeTemplateSet
@@ -491,7 +500,7 @@ theorem decodeSet_optTpl (addr : Bytes) (ts : List Template) (pad rest : Bytes)
     (hw : Wire.V9.wfSet addr cache (.optTpl ts pad) = true) (hfuel : ts.length < fuel) :
     decodeSet addr fuel ⟨⟨Wire.V9.encodeOptTemplateSet ts pad ++ rest, c⟩, cache, recs⟩ =
       (⟨⟨rest, c + (Wire.V9.encodeOptTemplateSet ts pad).length⟩, insertAll addr cache ts, recs⟩, none) := by
-  simp only [Wire.V9.wfSet, Wire.V9.wfSetLen, Bool.and_eq_true, decide_eq_true_eq,
+  simp only [Wire.V9.wfSet, Wire.V9.wfSetLen, Wire.V9.wfTplPad, Bool.and_eq_true, decide_eq_true_eq,
     List.all_eq_true] at hw
   obtain ⟨⟨_, hts⟩, hpad, hlen⟩ := hw
   unfold Wire.V9.encodeOptTemplateSet
